@@ -136,7 +136,36 @@ type cfg struct {
 	ColTot bool   `json:"coltot"`
 	Over   bool   `json:"over"`
 	ByVal  bool   `json:"byval"`
+	TplId  int    `json:"-"` // index into tplTable when Fmt == "tpl"
+	FootId int    `json:"-"` // index into footTable: the footer lines written after every render
 }
+
+// expression formatters (--format): a template is a list of parts; [-1] the value, [-2] the lower bound, [-3] the
+// upper bound, anything else literal text (Render.tla FmtTpl)
+var tplTable = [][][]int{
+	{{-1}, vh.R(" of "), {-3}},                       // {0} of {max}
+	{{-1}, vh.R("["), {-2}, vh.R("~"), {-3}, vh.R("]")}, // {0}[{min}~{max}]
+	{vh.R("#"), {-1}},                                // #{0}
+	{{-3}, vh.R("/"), {-1}, vh.R("/"), {-2}},         // {max}/{0}/{min}
+}
+
+// footer line numbers (relative to the renderer's footer base) written after every render, like cmd/*.go do (0 and 1)
+var footTable = [][]int{{}, {0, 1}, {0}, {1}, {0, 3}, {0, 1, 37}}
+
+// the expression text of a template; the spelling of the references alternates with alt
+func tplExpr(tpl [][]int, alt int) string {
+	var sb strings.Builder
+	for i, p := range tpl {
+		names := [][2]string{{"{0}", "{val}"}, {"{1}", "{min}"}, {"{2}", "{max}"}}
+		if len(p) == 1 && p[0] < 0 && p[0] >= -3 {
+			sb.WriteString(names[-p[0]-1][(alt+i)%2])
+		} else {
+			sb.WriteString(vh.RunesFromInts(p))
+		}
+	}
+	return sb.String()
+}
+
 
 func scalerOf(name string) termscaler.Scaler {
 	s, ok := termscaler.ScalerByName(name)
@@ -146,11 +175,22 @@ func scalerOf(name string) termscaler.Scaler {
 	return s
 }
 
-func formatterOf(name string) termformat.Formatter {
-	if name == "raw" {
+// one formatter per renderer instance, as the commands build it once from --format
+func formatterOf(c cfg) termformat.Formatter {
+	switch c.Fmt {
+	case "raw":
 		return termformat.Passthru
+	case "tpl":
+		return termformat.MustFromExpression(tplExpr(tplTable[c.TplId], c.Rows+c.Cols))
 	}
 	return termformat.Default
+}
+
+func (c cfg) tpl() [][]int {
+	if c.Fmt == "tpl" {
+		return tplTable[c.TplId]
+	}
+	return [][]int{}
 }
 
 // one renderer instance writing into one virtual terminal (kept across progressive renders)
@@ -163,6 +203,25 @@ type inst struct {
 	heat  *termrenderers.Heatmap
 	spark *termrenderers.Spark
 	tw    *termrenderers.TableWriter
+	pass  int
+	foot  [][]interface{} // the footers of the last render: [line relative to the base, text]
+}
+
+func (in *inst) writeFooter(idx int, text string) {
+	switch in.c.Rdr {
+	case "histo":
+		in.histo.WriteFooter(idx, text)
+	case "bars", "stack":
+		in.bars.WriteFooter(idx, text)
+	case "table":
+		in.table.WriteFooter(idx, text)
+	case "heat":
+		in.heat.WriteFooter(idx, text)
+	case "spark":
+		in.spark.WriteFooter(idx, text)
+	case "reduce":
+		in.tw.WriteFooter(idx, text)
+	}
 }
 
 func setGlobals(c cfg) {
@@ -185,29 +244,29 @@ func newInst(c cfg) (in *inst, msg string) {
 		in.histo.ShowBar = c.Bars
 		in.histo.ShowPercentage = c.Pct
 		in.histo.Scaler = scalerOf(c.Sc)
-		in.histo.Formatter = formatterOf(c.Fmt)
+		in.histo.Formatter = formatterOf(c)
 	case "bars", "stack":
 		in.bars = termrenderers.NewBarGraph(in.vt)
 		in.bars.Stacked = c.Rdr == "stack"
 		if !in.bars.Stacked {
 			in.bars.Scaler = scalerOf(c.Sc)
 		}
-		in.bars.Formatter = formatterOf(c.Fmt)
+		in.bars.Formatter = formatterOf(c)
 	case "table":
 		in.table = termrenderers.NewDataTable(in.vt, c.Cols, c.Rows)
 		in.table.ShowRowTotals = c.RowTot
 		in.table.ShowColTotals = c.ColTot
-		if c.Fmt == "raw" {
-			in.table.SetFormatter(termformat.Passthru)
+		if c.Fmt != "hi" {
+			in.table.SetFormatter(formatterOf(c))
 		}
 	case "heat":
 		in.heat = termrenderers.NewHeatmap(in.vt, c.Rows, c.Cols)
 		in.heat.Scaler = scalerOf(c.Sc)
-		in.heat.Formatter = formatterOf(c.Fmt)
+		in.heat.Formatter = formatterOf(c)
 	case "spark":
 		in.spark = termrenderers.NewSpark(in.vt, c.Rows, c.Cols)
 		in.spark.Scaler = scalerOf(c.Sc)
-		in.spark.Formatter = formatterOf(c.Fmt)
+		in.spark.Formatter = formatterOf(c)
 	case "reduce":
 		in.tw = termrenderers.NewTable(in.vt, c.Cols, c.Rows)
 	}
@@ -256,6 +315,8 @@ func (in *inst) render(s *state) (obs M, msg string) {
 		}
 	}()
 	so := sorterOf(c.ByVal)
+	in.pass++
+	in.foot = [][]interface{}{}
 	switch c.Rdr {
 	case "histo":
 		count := c.Rows
@@ -282,6 +343,12 @@ func (in *inst) render(s *state) (obs M, msg string) {
 		for i, row := range reduceCells(s, c.ByVal) {
 			in.tw.WriteRow(i, row...)
 		}
+	}
+	// the footers follow every render (cmd/*.go: summary and status line)
+	for _, idx := range footTable[c.FootId] {
+		text := fmt.Sprintf("foot %d of render %d \u00b5", idx, in.pass)
+		in.foot = append(in.foot, []interface{}{idx, vh.R(text)})
+		in.writeFooter(idx, text)
 	}
 	return
 }
@@ -351,7 +418,8 @@ func configsFor(kind string, idx int, full bool) []cfg {
 					if (j+idx)%thin != 0 {
 						continue
 					}
-					c := cfg{Rdr: rdr, Sc: sc, Color: col, Uni: uni, Fmt: []string{"hi", "raw"}[(k/3)%2],
+					c := cfg{Rdr: rdr, Sc: sc, Color: col, Uni: uni, Fmt: []string{"hi", "raw", "tpl", "tpl"}[(k/3)%4],
+						TplId: (k / 23) % len(tplTable), FootId: (k / 29) % len(footTable),
 						Rows: limitsL[k%5], Cols: limitsL[(k/5)%5],
 						Bars: (k/7)%4 != 3, Pct: (k/11)%3 != 2, RowTot: (k/13)%2 == 0, ColTot: (k/17)%3 != 0,
 						Over: (k/19)%2 == 0, ByVal: idx%2 == 0}
@@ -394,8 +462,12 @@ func newRecorder(path string) (*recorder, error) {
 	return &recorder{w: w, perRdr: map[string]int{}, seen: map[string]bool{}}, nil
 }
 
-func (rc *recorder) render(c cfg, obs M, prev []M, fresh bool, lines [][]int, msg string, id int) {
+func (rc *recorder) render(c cfg, obs M, prev []M, fresh bool, lines [][]int, msg string, id int, before [][]int, foot [][]interface{}) {
+	if foot == nil {
+		foot = [][]interface{}{}
+	}
 	rec := M{"ev": "render", "id": id, "rdr": c.Rdr, "sc": c.Sc, "color": c.Color, "uni": c.Uni, "fmt": c.Fmt,
+		"tpl": c.tpl(), "before": before, "foot": foot,
 		"rows": c.Rows, "cols": c.Cols, "bars": c.Bars, "pct": c.Pct, "rowtot": c.RowTot, "coltot": c.ColTot,
 		"over": c.Over, "obs": obs, "prev": prev, "fresh": fresh, "panic": msg != "", "msg": msg, "lines": lines}
 	if prev == nil {
@@ -443,15 +515,17 @@ func (rc *recorder) renderState(kind string, hist []string, idx int, full bool) 
 		in, msg := newInst(c)
 		var obs M
 		lines := [][]int{}
+		var foot [][]interface{}
 		if msg == "" {
 			obs, msg = in.renderGuarded(st)
 			if hung == "" {
 				lines = in.lines()
+				foot = in.foot
 			}
 		} else {
 			obs = st.obs(c.ByVal)
 		}
-		rc.render(c, obs, nil, true, lines, msg, idx)
+		rc.render(c, obs, nil, true, lines, msg, idx, [][]int{}, foot)
 		if hung != "" {
 			return
 		}
@@ -486,12 +560,13 @@ func (rc *recorder) renderState(kind string, hist []string, idx int, full bool) 
 			if (i+1)%step != 0 && i != len(hist)-1 {
 				continue
 			}
+			before := in.lines()
 			obs, msg := in.renderGuarded(grow)
 			if hung != "" {
-				rc.render(c, obs, append([]M{}, prev...), len(prev) == 0, [][]int{}, msg, idx)
+				rc.render(c, obs, append([]M{}, prev...), len(prev) == 0, [][]int{}, msg, idx, before, nil)
 				return
 			}
-			rc.render(c, obs, append([]M{}, prev...), len(prev) == 0, in.lines(), msg, idx)
+			rc.render(c, obs, append([]M{}, prev...), len(prev) == 0, in.lines(), msg, idx, before, in.foot)
 			if msg != "" {
 				break
 			}
@@ -693,10 +768,23 @@ func c14Replay(args []string) error {
 	nfn, nstate, fnNontriv := 0, 0, 0
 	perF := map[string]int{}
 	var samples []M
+	ist := &instStats{vectors: map[string]int{}}
+	ninst, canaryRejected := 0, 0
 	err = vh.ReadNd(*in, func(raw json.RawMessage) error {
 		var v vector
 		if err := json.Unmarshal(raw, &v); err != nil {
 			return err
+		}
+		if v.K == "inst" {
+			ninst++
+			if m := instReplay(raw, ninst, ist); m != nil {
+				if c, _ := m["canary"].(bool); c {
+					canaryRejected++
+				} else if len(mism) < 400 {
+					mism = append(mism, m)
+				}
+			}
+			return nil
 		}
 		if v.K == "fn" {
 			nfn++
@@ -755,7 +843,8 @@ func c14Replay(args []string) error {
 		return err
 	}
 	rc.w.Close()
-	vh.WriteJSON(*res, M{"fn_vectors": nfn, "state_vectors": nstate, "per_fn": perF, "fn_nontrivial": fnNontriv,
+	vh.WriteJSON(*res, M{"inst_vectors": ninst, "inst_per_machine": ist.vectors, "inst_ops": ist.ops, "inst_nontrivial": ist.nontriv, "inst_canaries_rejected": canaryRejected,
+		"fn_vectors": nfn, "state_vectors": nstate, "per_fn": perF, "fn_nontrivial": fnNontriv,
 		"mismatches": mism, "renders": rc.renders, "records": rc.w.N, "identical": rc.skipped, "panics": rc.panics,
 		"per_renderer": rc.perRdr, "nontrivial": rc.nontriv, "samples": append(samples, rc.samples...), "max_lines": rc.maxLines, "hung": hung})
 	if hung != "" {
